@@ -25,6 +25,7 @@ import SkNet.Lemmas.BreakFuel
 import SkNet.Lemmas.BreakDist
 import SkNet.Lemmas.UndirectedForest
 import SkNet.Lemmas.CompleteUnd
+import SkNet.Lemmas.SpecSound
 
 namespace SkNet.C12
 open SkNet SkNet.Connectivity SkNet.Cycles
@@ -117,6 +118,24 @@ theorem contract_line_certifies (n : Nat) (adj : Nat → List Nat) (hwf : ∀ u,
 
 example : isLabellingB 3 (fun i => if i = 0 then [1] else []) false [0, 0, 1] = some true := by decide
 example : isLabellingB 3 (fun i => if i = 0 then [1] else []) true [0, 1, 2] = some true := by decide
+
+/-- The executable check of a `spec_acyclic` / `spec_cycles` line on a directed graph (`hasCycleB`: some edge whose
+    head reaches its tail, by the reachability closure) decides `HasCycle`. -/
+theorem specAcyclic_line_certifies (n : Nat) (adj : Nat → List Nat) (hwf : ∀ u, u < n → ∀ v ∈ adj u, v < n)
+    (b : Bool) (h : hasCycleB n adj = some b) : b = true ↔ HasCycle n adj :=
+  hasCycleB_sound hwf h
+
+example : hasCycleB 3 (fun i => [(i + 1) % 3]) = some true := by decide
+example : hasCycleB 3 (fun i => if i < 2 then [i + 1] else []) = some false := by decide
+
+/-- The executable check of a `spec_bip` line (`twoColourableB`: brute force over the `2^n` bit masks) decides
+    `TwoColourable`. -/
+theorem specBipartite_line_certifies (n : Nat) (adj : Nat → List Nat) (hwf : ∀ u, u < n → ∀ v ∈ adj u, v < n) :
+    twoColourableB n adj = true ↔ TwoColourable n adj :=
+  twoColourableB_iff hwf
+
+example : twoColourableB 4 (fun i => [(i + 1) % 4, (i + 3) % 4]) = true := by decide
+example : twoColourableB 3 (fun i => [(i + 1) % 3, (i + 2) % 3]) = false := by decide
 
 /-! ## get_largest_connected_component -/
 
